@@ -175,7 +175,7 @@ func numOf(v reflect.Value) float64 {
 func bitsOf(v reflect.Value) uint64 {
 	switch v.Kind() {
 	case reflect.Float32:
-		return uint64(math.Float32bits(float32(v.Float())))
+		return uint64(math.Float32bits(v.Interface().(float32)))
 	case reflect.Float64:
 		return math.Float64bits(v.Float())
 	case reflect.Int, reflect.Int8, reflect.Int16, reflect.Int32, reflect.Int64:
@@ -462,4 +462,35 @@ func mismatches(got, want tensor.Tensor) (string, []int) {
 		}
 	}
 	return "", idx
+}
+
+
+// approxSame: shape and dtype exact; integer, bool and other non-float elements exact; float
+// elements equal, both NaN, or within rel*max(1,|a|,|b|) ("up to floating-point rounding").
+func approxSame(a, b tensor.Tensor, rel float64) string {
+	if a == nil || b == nil {
+		if a == nil && b == nil {
+			return ""
+		}
+		return fmt.Sprintf("nil-ness differs (%v vs %v)", a == nil, b == nil)
+	}
+	if !eqInts(a.Shape(), b.Shape()) {
+		return fmt.Sprintf("shape %v vs %v", a.Shape(), b.Shape())
+	}
+	if a.Dtype() != b.Dtype() {
+		return fmt.Sprintf("dtype %v vs %v", a.Dtype(), b.Dtype())
+	}
+	if !isFloat(a.Dtype()) {
+		return sameValues(a, b)
+	}
+	x, y := f64s(a), f64s(b)
+	for i := range x {
+		if x[i] == y[i] || (math.IsNaN(x[i]) && math.IsNaN(y[i])) {
+			continue
+		}
+		if !(math.Abs(x[i]-y[i]) <= rel*math.Max(1, math.Max(math.Abs(x[i]), math.Abs(y[i])))) {
+			return fmt.Sprintf("element %d: %v vs %v", i, x[i], y[i])
+		}
+	}
+	return ""
 }
